@@ -8,13 +8,13 @@ namespace glm
 	GLM_FUNC_QUALIFIER float next_float(float x)
 	{
 #		if GLM_HAS_CXX11_STL
-		return std::nextafter(x, std::numeric_limits<float>::max());
+		return std::nextafter(x, std::numeric_limits<float>::infinity());
 #		elif((GLM_COMPILER & GLM_COMPILER_VC) || ((GLM_COMPILER & GLM_COMPILER_INTEL) && (GLM_PLATFORM & GLM_PLATFORM_WINDOWS)))
-		return detail::nextafterf(x, FLT_MAX);
+		return detail::nextafterf(x, std::numeric_limits<float>::infinity());
 #		elif(GLM_PLATFORM & GLM_PLATFORM_ANDROID)
-		return __builtin_nextafterf(x, FLT_MAX);
+		return __builtin_nextafterf(x, std::numeric_limits<float>::infinity());
 #		else
-		return nextafterf(x, FLT_MAX);
+		return nextafterf(x, std::numeric_limits<float>::infinity());
 #		endif
 	}
 
@@ -22,13 +22,13 @@ namespace glm
 	GLM_FUNC_QUALIFIER double next_float(double x)
 	{
 #		if GLM_HAS_CXX11_STL
-		return std::nextafter(x, std::numeric_limits<double>::max());
+		return std::nextafter(x, std::numeric_limits<double>::infinity());
 #		elif((GLM_COMPILER & GLM_COMPILER_VC) || ((GLM_COMPILER & GLM_COMPILER_INTEL) && (GLM_PLATFORM & GLM_PLATFORM_WINDOWS)))
-		return detail::nextafter(x, std::numeric_limits<double>::max());
+		return detail::nextafter(x, std::numeric_limits<double>::infinity());
 #		elif(GLM_PLATFORM & GLM_PLATFORM_ANDROID)
-		return __builtin_nextafter(x, DBL_MAX);
+		return __builtin_nextafter(x, std::numeric_limits<double>::infinity());
 #		else
-		return nextafter(x, DBL_MAX);
+		return nextafter(x, std::numeric_limits<double>::infinity());
 #		endif
 	}
 
@@ -47,26 +47,26 @@ namespace glm
 	GLM_FUNC_QUALIFIER float prev_float(float x)
 	{
 #		if GLM_HAS_CXX11_STL
-		return std::nextafter(x, std::numeric_limits<float>::min());
+		return std::nextafter(x, -std::numeric_limits<float>::infinity());
 #		elif((GLM_COMPILER & GLM_COMPILER_VC) || ((GLM_COMPILER & GLM_COMPILER_INTEL) && (GLM_PLATFORM & GLM_PLATFORM_WINDOWS)))
-		return detail::nextafterf(x, FLT_MIN);
+		return detail::nextafterf(x, -std::numeric_limits<float>::infinity());
 #		elif(GLM_PLATFORM & GLM_PLATFORM_ANDROID)
-		return __builtin_nextafterf(x, FLT_MIN);
+		return __builtin_nextafterf(x, -std::numeric_limits<float>::infinity());
 #		else
-		return nextafterf(x, FLT_MIN);
+		return nextafterf(x, -std::numeric_limits<float>::infinity());
 #		endif
 	}
 
 	GLM_FUNC_QUALIFIER double prev_float(double x)
 	{
 #		if GLM_HAS_CXX11_STL
-		return std::nextafter(x, std::numeric_limits<double>::min());
+		return std::nextafter(x, -std::numeric_limits<double>::infinity());
 #		elif((GLM_COMPILER & GLM_COMPILER_VC) || ((GLM_COMPILER & GLM_COMPILER_INTEL) && (GLM_PLATFORM & GLM_PLATFORM_WINDOWS)))
-		return _nextafter(x, DBL_MIN);
+		return _nextafter(x, -std::numeric_limits<double>::infinity());
 #		elif(GLM_PLATFORM & GLM_PLATFORM_ANDROID)
-		return __builtin_nextafter(x, DBL_MIN);
+		return __builtin_nextafter(x, -std::numeric_limits<double>::infinity());
 #		else
-		return nextafter(x, DBL_MIN);
+		return nextafter(x, -std::numeric_limits<double>::infinity());
 #		endif
 	}
 
